@@ -333,6 +333,23 @@ pub broadcast proof fn axiom_option_items<T>(o: Option<T>)
 pub uninterp spec fn parse_spec<F: core::str::FromStr>(s: Seq<char>) -> Result<F, F::Err>;
 pub assume_specification<F: core::str::FromStr> [str::parse::<F>](s: &str) -> (r: Result<F, F::Err>)
     ensures r == parse_spec::<F>(s@);
+// generic iterators: vstd's prophetic view and its laws, under short names
+#[verifier::prophetic]
+pub open spec fn it_rem<I: Iterator>(i: &I) -> Seq<I::Item> { vstd::std_specs::iter::IteratorSpec::remaining(i) }
+#[verifier::prophetic]
+pub open spec fn it_laws<I: Iterator>(i: &I) -> bool { vstd::std_specs::iter::IteratorSpec::obeys_prophetic_iter_laws(i) }
+pub open spec fn it_dec<I: Iterator>(i: &I) -> Option<nat> { vstd::std_specs::iter::IteratorSpec::decrease(i) }
+// Peekable over a finite iterator has a termination measure
+#[verifier::external_body]
+pub broadcast proof fn axiom_peekable_dec<I: Iterator>(p: &std::iter::Peekable<I>)
+    ensures (#[trigger] vstd::std_specs::iter::IteratorSpec::decrease(p)) is Some
+{}
+#[verifier::external_body]
+pub fn fmt_escape(c: char) -> (r: String) { format!("\\{}", c) }
+// X14: vstd declares char::is_whitespace without a result specification and a second one cannot be added, so the
+// call is outlined (body = original expression); assumed: it is a function of the character (Unicode White_Space)
+#[verifier::external_body]
+pub fn is_ws(c: char) -> (r: bool) ensures r == char_is_ws(c) { c.is_whitespace() }
 // derived PartialEq of PartialToken (only comparisons against the unit variants are used)
 pub open spec fn pt_eq(a: PartialToken, b: PartialToken) -> bool {
     match (a, b) { (PartialToken::Token(x), PartialToken::Token(y)) => tok_eq(x, y), _ => a == b }
